@@ -24,7 +24,7 @@ Task: change the SeaweedFS source (non-test .go files) in {wt} so that the prope
   (4) it looks like a plausible developer mistake, refactoring slip or 'optimisation' (a dropped adjustment, a lock released too early, a check moved, an off-by-one at a boundary, an update published before the data it guards …), small (a few lines, one or two sites).
 Files named zz_verif*.go (build tag `verif`) are instrumentation: leave them alone and do not rely on them.
 
-Then write a DEMONSTRATION: a new Go test file (package-internal _test.go placed in the worktree) or a small program that deterministically (or, for a race, with very high probability, e.g. by forcing the interleaving with sleeps/hooks local to the test) FAILS with your change and PASSES without it. Verify both directions yourself (e.g. `git stash` the source change, run, `git stash pop`, run).
+Then write a DEMONSTRATION: a new Go test file (package-internal _test.go placed in the worktree) or a small program that deterministically (or, for a race, with very high probability, e.g. by forcing the interleaving with sleeps/hooks local to the test) FAILS with your change and PASSES without it. Verify both directions yourself with `git diff -- <files> > /tmp/mine.diff; git apply -R /tmp/mine.diff; <run>; git apply /tmp/mine.diff; <run>`. NEVER use `git stash`: the stash is shared by every worktree of /repo and other people are working in sibling worktrees.
 
 Deliverables in {wt}-out/ :
   patch.diff   — `git -C {wt} diff -- <the non-test source files you changed>` (source change only, applies with `git apply` to a clean checkout of the same commit)
